@@ -7,7 +7,7 @@ import leafgen as lg
 import c01
 
 ID = 'C14'
-GEN = ['kernels', 'classes']
+GEN = ['kernels', 'classes', 'functions']
 PROPS = 'Props/C14.v'
 MODEL_VO = ['Model/Dev.v']
 EXTRA_MODEL_VO = ['Proofs/TransEval.v']
